@@ -53,7 +53,13 @@ impl Distribution for Uniform {
 
 impl Distribution1D for Uniform {
     fn update(&mut self, params: &[f64]) {
-        self.set_lower(params[0]).set_upper(params[1]);
+        // validate the new bounds against each other, not against the bounds being replaced
+        let (lower, upper) = (params[0], params[1]);
+        if lower > upper {
+            panic!("Upper must be larger than lower.")
+        }
+        self.lower = lower;
+        self.upper = upper;
     }
 }
 
